@@ -38,32 +38,32 @@ CONSTANT NCASES
 Cases == JsonDeserialize(IOEnv.TRACE_FILE)
 VARIABLES tid, side, pos, U, Ua
 Case == Cases[tid]
-NT(c) == c.n + c.k
+TqNT(c) == c.n + c.k
 \* the columns whose ancilla wires (the k least significant bits) are 0
-U0(c) == [k |-> 0, e |-> TLCEval([i \in 1..2^(c.n + c.k) |-> TLCEval([j \in 1..2^c.n |->
+TqU0(c) == [k |-> 0, e |-> TLCEval([i \in 1..2^(c.n + c.k) |-> TLCEval([j \in 1..2^c.n |->
                               IF i - 1 = (j - 1) * 2^c.k THEN One ELSE Zero])])]
 Init == /\ tid \in 1..NCASES /\ side = 0 /\ pos = 1
-        /\ U = U0(Cases[tid]) /\ Ua = <<>>
-Seq_(s) == IF s = 0 THEN Case.a ELSE Case.b
-InsM(ins) == IF ins.k = "g" THEN GateM(ins.g) ELSE QasmM(ins.g)
+        /\ U = TqU0(Cases[tid]) /\ Ua = <<>>
+TqSeq(s) == IF s = 0 THEN Case.a ELSE Case.b
+InsM(ins) == IF ins.k = "g" THEN GateMB(ins.g) ELSE QasmM(ins.g)
 AncW(ins, n) == [i \in 1..Len(ins.cw) |-> n + ins.cw[i]]
 RECURSIVE ApplyCond(_, _, _, _, _)
 ApplyCond(u, ins, mat, j, c) ==
    IF j > Len(ins.cv) THEN u
-   ELSE ApplyCond(ApplyGate(u, CtrlM(mat, ins.cv[j]), AncW(ins, c.n) \o ins.g.w, NT(c)), ins, mat, j + 1, c)
+   ELSE ApplyCond(ApplyGate(u, CtrlM(mat, ins.cv[j]), AncW(ins, c.n) \o ins.g.w, TqNT(c)), ins, mat, j + 1, c)
 StepU(u, ins, c) ==
    CASE ins.k \in {"g", "q"} ->
           IF Len(ins.cw) = 0
           THEN (IF Len(ins.g.w) = 0 THEN u      \* an unconditioned scalar: irrelevant for both relations
-                ELSE ApplyGate(u, InsM(ins), ins.g.w, NT(c)))
+                ELSE ApplyGate(u, InsM(ins), ins.g.w, TqNT(c)))
           ELSE Bind(InsM(ins), LAMBDA mat : ApplyCond(u, ins, mat, 1, c))
-     [] ins.k = "m" -> ApplyGate(u, MCNOT, <<ins.w, c.n + ins.anc>>, NT(c))
-     [] ins.k = "r" -> ApplyGate(ApplyGate(u, MCNOT, <<ins.w, c.n + ins.anc>>, NT(c)), MCNOT, <<c.n + ins.anc, ins.w>>, NT(c))
-Step == /\ side <= 1 /\ pos <= Len(Seq_(side))
-        /\ U' = StepU(U, Seq_(side)[pos], Case)
+     [] ins.k = "m" -> ApplyGate(u, MCNOT, <<ins.w, c.n + ins.anc>>, TqNT(c))
+     [] ins.k = "r" -> ApplyGate(ApplyGate(u, MCNOT, <<ins.w, c.n + ins.anc>>, TqNT(c)), MCNOT, <<c.n + ins.anc, ins.w>>, TqNT(c))
+Step == /\ side <= 1 /\ pos <= Len(TqSeq(side))
+        /\ U' = StepU(U, TqSeq(side)[pos], Case)
         /\ pos' = pos + 1 /\ UNCHANGED <<tid, side, Ua>>
 EndA == /\ side = 0 /\ pos > Len(Case.a)
-        /\ side' = 1 /\ pos' = 1 /\ Ua' = U /\ U' = U0(Case) /\ UNCHANGED tid
+        /\ side' = 1 /\ pos' = 1 /\ Ua' = U /\ U' = TqU0(Case) /\ UNCHANGED tid
 
 RegOK(c) == c.nq = c.enq
 MeasuredOK(c) ==
@@ -72,16 +72,16 @@ MeasuredOK(c) ==
    /\ Cardinality({c.mp[i][2] : i \in 1..Len(c.mp)}) = Len(c.mp)
    /\ \A i \in 1..Len(c.mp) : c.mp[i][2] >= 0 /\ c.mp[i][2] < c.ncreg /\ c.mp[i][1] >= 0 /\ c.mp[i][1] < c.nq
 PrecOK(c) == \A i \in 1..Len(c.b) : \A j \in 1..Len(c.b[i].pe) : c.b[i].pe[j] <= c.b[i].tol[j]
-IsDiag(m) == \A i \in 1..Len(m.e) : \A j \in 1..Len(m.e[i]) : i # j => IsZero(m.e[i][j])
-Verdict(ua, ub, c) ==
+TqIsDiag(m) == \A i \in 1..Len(m.e) : \A j \in 1..Len(m.e[i]) : i # j => IsZero(m.e[i][j])
+TqVerdict(ua, ub, c) ==
    IF ~RegOK(c) THEN "qreg-size"
    ELSE IF ~MeasuredOK(c) THEN "measured-register"
    ELSE IF ~PrecOK(c) THEN "angle-precision"
    ELSE IF ~InBound(ua) \/ ~InBound(ub) THEN "overflow"
    ELSE CASE c.rel = "phase" -> IF EqUpToScalar(ua, ub) THEN "ok" ELSE "not-equal-up-to-phase"
-          [] c.rel = "diag"  -> IF IsDiag(MatMul(ub, Dagger(ua))) THEN "ok" ELSE "not-diagonal-in-eigenbasis"
+          [] c.rel = "diag"  -> IF TqIsDiag(MatMul(ub, Dagger(ua))) THEN "ok" ELSE "not-diagonal-in-eigenbasis"
 EndB == /\ side = 1 /\ pos > Len(Case.b)
-        /\ PrintT(<<"V", tid, Verdict(Ua, U, Case)>>)
+        /\ PrintT(<<"V", tid, TqVerdict(Ua, U, Case)>>)
         /\ side' = 2 /\ pos' = 1 /\ U' = <<>> /\ UNCHANGED <<tid, Ua>>
 Next == Step \/ EndA \/ EndB
 =============================================================================
